@@ -283,7 +283,7 @@ contract("ExpandingBloomFilter.__load", contexts=_XALL, properties=["C05", "C09"
                    " for q in range(0, len(self._blooms)))")])
 
 contract("ExpandingBloomFilter.export@path", contexts=_XALL, properties=["C05", "C06", "C09", "C01"],
-         params={"file": "key"}, requires=_XREQ + [("a_path_is_given", "isinstance(file, str) and file != ''")], modifies=["fs"],
+         params={"file": "key"}, loops={0: {"unreached": True}}, requires=_XREQ + [("a_path_is_given", "isinstance(file, str) and file != ''")], modifies=["fs"],
          ensures=[("file_holds_exactly_the_documented_export",
                    f"file_exists(resolve(file)) and len(file_bytes(resolve(file))) == smul(len(self._blooms), {_XSTRIDE}) + 28 and "
                    "exp_image(self, file_bytes(resolve(file)), 0)")])
